@@ -90,7 +90,7 @@ NoStrictOnInit == (Stepped /\ FullyInit(prev)) => obsv.res \notin StrictErrs
 \* C08 structure: exactly one condition code; reserved PSR bits clear unless an RTI restored them; the
 \* instruction count moves by at most one and only on success
 \* (an RTI restores the PSR word found on the stack as it is - whatever the program put there)
-OneHotCC == CC(st.psr) \in {1, 2, 4} \/ (Stepped /\ st.psr = Rd(prev, Wrap(R(prev, 6).v + 1)).v)
+OneHotCC == (Stepped /\ CC(prev.psr) \in {1, 2, 4}) => (CC(st.psr) \in {1, 2, 4} \/ st.psr = Rd(prev, Wrap(R(prev, 6).v + 1)).v)
 CountMC  == Stepped => (st.icount = prev.icount \/ (st.icount = prev.icount + 1 /\ obsv.res = "ok"))
 \* a rejected step in user mode changes no memory (virtual traps)
 =============================================================================
